@@ -181,6 +181,22 @@ func main() {
 		}
 		build()
 		_, kp := loadKnown()
+		{
+			var rf core.ReplayFile
+			b, _ := os.ReadFile(os.Args[2])
+			json.Unmarshal(b, &rf)
+			if rf.Config.Mode == "race" {
+				buildRace()
+				out, _ := runRaceProc(rf.Seed, int(rf.Config.Index), 2000, 120)
+				if strings.Contains(out, "WARNING: DATA RACE") || strings.Contains(out, "RACELEG MISMATCH") {
+					fmt.Print(tail(out, 3000))
+					fmt.Printf("VIOLATION property=%s replay=%s\n", rf.Property, os.Args[2])
+					os.Exit(1)
+				}
+				fmt.Println("the race leg did not report the finding again (it observes real executions; replay is probabilistic)")
+				os.Exit(0)
+			}
+		}
 		res := runReplay(os.Args[2], kp, "", os.Getenv("VERIF_VERBOSE") != "")
 		fmt.Print(res.output)
 		var rf core.ReplayFile
@@ -336,10 +352,16 @@ func main() {
 	if trouble != "" && len(violations) == 0 {
 		harness("%s", trouble)
 	}
+	trouble = "" // violations were found: they are reported, the trouble is secondary
 
 	// verify every replay in a fresh process before it is reported
 	os.MkdirAll(filepath.Join(verifDir, "replays"), 0o755)
 	var lines []string
+	var unverified []string
+	extra := map[string]any{}
+	if prop == "C13" {
+		lines = append(lines, raceLeg(tier, seed, known, stats, extra)...)
+	}
 	for i := range violations {
 		v := &violations[i]
 		path := filepath.Join(verifDir, "replays", fmt.Sprintf("%s-seed%d-%s-%d-%d.json", prop, seed, v.Config.Mode, v.Config.Index, i))
@@ -352,8 +374,10 @@ func main() {
 		}
 		rr := runReplay(path, knownPath, "", false)
 		if !rr.reproduced || (v.Signature != "" && rr.signature != v.Signature) {
-			fmt.Print(tail(rr.output, 2000))
-			harness("replay %s did not reproduce exactly in a fresh process (reproduced=%v, signature %s vs %s): non-deterministic harness, nothing is reported", path, rr.reproduced, rr.signature, v.Signature)
+			// a finding that does not replay exactly in a fresh process is never reported as a violation
+			unverified = append(unverified, fmt.Sprintf("%s (reproduced=%v, signature %s vs %s)", v.Key, rr.reproduced, short12(rr.signature), short12(v.Signature)))
+			os.Remove(path)
+			continue
 		}
 		fmt.Printf("finding %s: %s\n  minimised tape %d -> %d entries (%d minimiser runs), replay verified in a fresh process\n", v.Key, v.Detail, v.OrigTape, len(v.Tape), v.MinRuns)
 		lines = append(lines, fmt.Sprintf("VIOLATION property=%s replay=%s", prop, path))
@@ -363,7 +387,7 @@ func main() {
 		fmt.Printf("KNOWN-FINDING: property=%s %s — %s (seen in %d runs)\n", prop, k, known[k].What, stats.KnownSeen[k])
 	}
 	wall := time.Since(start).Seconds()
-	writeEvidence(prop, tier, seed, stats, len(sigs), len(violations), wall, W)
+	writeEvidence(prop, tier, seed, stats, len(sigs), len(lines), wall, W, extra)
 	if stats.Runs == 0 {
 		stats.Runs = 1 // every worker died before reporting; the violation above stands, the evidence stays schema-valid
 	}
@@ -374,6 +398,136 @@ func main() {
 	if len(lines) > 0 {
 		os.Exit(1)
 	}
+	if len(unverified) > 0 {
+		for _, u := range unverified {
+			fmt.Println("unverified finding (did not replay exactly in a fresh process, not reported): " + u)
+		}
+		harness("%d finding(s) could not be replayed exactly and none could: non-deterministic harness or history-dependent library state", len(unverified))
+	}
+	if trouble != "" {
+		harness("%s", trouble)
+	}
+}
+
+func short12(s string) string {
+	if len(s) > 12 {
+		return s[:12]
+	}
+	return s
+}
+
+var simRace = filepath.Join(buildDir, "sim.race.test")
+
+func buildRace() {
+	cmd := exec.Command(goBin, "test", "-race", "-c", "-tags", "verif", "-o", simRace, ".")
+	cmd.Dir = simDir
+	env := goEnv()
+	for i, e := range env {
+		if e == "CGO_ENABLED=0" {
+			env[i] = "CGO_ENABLED=1"
+		}
+	}
+	cmd.Env = env
+	out, err := cmd.CombinedOutput()
+	if err != nil {
+		fmt.Print(string(out))
+		harness("the race-detector build of the simulator failed: %v", err)
+	}
+}
+
+func runRaceProc(seed uint64, procs int, runs, seconds int) (string, int) {
+	cmd := exec.Command(simRace, "-test.run", "^TestRaceLeg$", "-test.count", "1", "-test.timeout", "2h")
+	cmd.Env = append(goEnv(), "VERIF_RACE=1", "GORACE=halt_on_error=1 exitcode=66", fmt.Sprintf("VERIF_RACE_PROCS=%d", procs),
+		fmt.Sprintf("VERIF_SEED=%d", seed), fmt.Sprintf("VERIF_RACE_RUNS=%d", runs), fmt.Sprintf("VERIF_RACE_SECONDS=%d", seconds))
+	out, err := cmd.CombinedOutput()
+	code := 0
+	if err != nil {
+		code = 1
+		if ee, ok := err.(*exec.ExitError); ok {
+			code = ee.ExitCode()
+		}
+	}
+	return string(out), code
+}
+
+func raceFrame(out string) string {
+	// first frame inside the module under test in the first race report
+	for _, l := range strings.Split(out, "\n") {
+		l = strings.TrimSpace(l)
+		if strings.HasPrefix(l, "github.com/hujm2023/go-sms-protocol") && !strings.Contains(l, "verifhook") {
+			f := strings.TrimPrefix(l, "github.com/hujm2023/go-sms-protocol")
+			f = strings.TrimPrefix(f, "/")
+			if i := strings.Index(f, "("); i > 0 && strings.HasSuffix(f, "()") {
+				f = strings.TrimSuffix(f, "()")
+			}
+			return f
+		}
+	}
+	return "unknown"
+}
+
+// raceLeg is leg B of C13: seeded workloads free-running under the race
+// detector at GOMAXPROCS 1, 4 and 16. It observes real executions; a data race
+// report or a result that differs from the sequential pass is a violation.
+func raceLeg(tier string, seed uint64, known map[string]core.KnownEntry, stats *core.Stats, extra map[string]any) []string {
+	buildRace()
+	runs, seconds := 150, 10
+	if tier == "thorough" {
+		runs, seconds = 1000000, 300
+	}
+	procs := []int{1, 4, 16}
+	outs := make([]string, len(procs))
+	codes := make([]int, len(procs))
+	var wg sync.WaitGroup
+	for i, p := range procs {
+		wg.Add(1)
+		go func(i, p int) {
+			defer wg.Done()
+			outs[i], codes[i] = runRaceProc(seed, p, runs, seconds)
+		}(i, p)
+	}
+	wg.Wait()
+	var lines []string
+	summary := []string{}
+	for i, p := range procs {
+		out := outs[i]
+		for _, l := range strings.Split(out, "\n") {
+			if strings.HasPrefix(l, "RACELEG DONE") {
+				summary = append(summary, strings.TrimPrefix(l, "RACELEG DONE "))
+			}
+		}
+		key, detail := "", ""
+		switch {
+		case strings.Contains(out, "WARNING: DATA RACE"):
+			key = "C13|data-race|" + raceFrame(out) + "|race-detector"
+			detail = fmt.Sprintf("the race detector reported a data race at GOMAXPROCS=%d (workload seed %d); report: %s", p, seed, tail(out[strings.Index(out, "WARNING: DATA RACE"):], 1800))
+		case strings.Contains(out, "RACELEG MISMATCH"):
+			key = "C13|differs-from-sequential|race-leg|free-running"
+			detail = out[strings.Index(out, "RACELEG MISMATCH"):]
+			if j := strings.IndexByte(detail, '\n'); j > 0 {
+				detail = detail[:j]
+			}
+		case codes[i] != 0:
+			harness("race leg at GOMAXPROCS=%d exited with status %d: %s", p, codes[i], tail(out, 1500))
+		}
+		if key == "" {
+			continue
+		}
+		if _, ok := known[key]; ok {
+			stats.KnownSeen[key]++
+			continue
+		}
+		path := filepath.Join(verifDir, "replays", fmt.Sprintf("C13-race-seed%d-procs%d.json", seed, p))
+		logp := strings.TrimSuffix(path, ".json") + ".log"
+		os.WriteFile(logp, []byte(out), 0o644)
+		rf := core.ReplayFile{Property: "C13", Scenario: "concurrent", Config: core.Config{Property: "C13", Scenario: "concurrent", Tier: tier, Mode: "race", Index: uint64(p)}, Seed: seed, Key: key, Detail: detail}
+		jb, _ := json.MarshalIndent(rf, "", " ")
+		os.WriteFile(path, jb, 0o644)
+		fmt.Printf("finding %s: %s\n", key, tail(detail, 600))
+		lines = append(lines, fmt.Sprintf("VIOLATION property=C13 replay=%s", path))
+	}
+	extra["race_leg"] = map[string]any{"gomaxprocs": procs, "summary": summary, "note": "free-running real threads under the race detector; interleaving NOT decided by the simulator"}
+	return lines
 }
 
 func compact(m map[string]uint64) string {
@@ -417,7 +571,7 @@ func scenMeta(prop string) scenInfo {
 
 func scenarioOf(prop string) string { return scenMeta(prop).Name }
 
-func writeEvidence(prop, tier string, seed uint64, st *core.Stats, distinct, violations int, wall float64, workers int) {
+func writeEvidence(prop, tier string, seed uint64, st *core.Stats, distinct, violations int, wall float64, workers int, extra map[string]any) {
 	meta := scenMeta(prop)
 	samples := []any{}
 	for _, s := range st.Samples {
@@ -456,6 +610,9 @@ func writeEvidence(prop, tier string, seed uint64, st *core.Stats, distinct, vio
 		"known_findings_seen":    st.KnownSeen,
 		"workers":                workers,
 		"scenario":               meta.Name,
+	}
+	for k, v := range extra {
+		cov[k] = v
 	}
 	ev := map[string]any{
 		"property_id": prop,
